@@ -169,6 +169,10 @@ def gen_plan(rng: random.Random, tier: str) -> dict:
               "rlv": [[pick(RLV_BEHAVIOURS) for _ in range(n_addons)] for _ in range(n_cmds)],
               "exc": rng.choice(EXCS), "later": rng.choice([0.0, 0.02, 0.2])}
         if kind == "obj":
+            # now and then the datagram loses its last bytes in flight: the header still names the message, the hooks
+            # still get it, but nobody can read its body
+            if rng.random() < 0.2:
+                st["damaged"] = rng.randint(1, 4)
             st["nobj"] = rng.randint(1, 3)
             st["objhook"] = [pick(OBJ_BEHAVIOURS) for _ in range(n_addons)]
             obj_tags.append(k)
@@ -204,6 +208,8 @@ def simplify_step(step):
             yield {**step, "kind": "plain", "rlv": []}
         if step.get("nobj", 1) > 1:
             yield {**step, "nobj": step["nobj"] - 1}
+        if step.get("damaged"):
+            yield {k_: v_ for k_, v_ in step.items() if k_ != "damaged"}
     if step.get("op") == "subscribe":
         if step.get("timeout"):
             yield {**step, "timeout": None}
@@ -333,6 +339,12 @@ def run_plan(plan: dict) -> RunResult:
                 res.probe("illegal_followup_rejected")
                 return
             except Exception as e:
+                if beh.get(tag, {}).get("damaged"):
+                    # (the refusal is worded with the message's repr, which cannot be built for an unreadable body:
+                    #  refused all the same)
+                    rec.add(kind="illegal", what=what, tag=tag, addon=idx, rejected=True)
+                    res.probe("illegal_followup_rejected")
+                    return
                 rec.add(kind="illegal", what=what, tag=tag, addon=idx, rejected=False, exc=type(e).__name__)
                 violate("C07/ownership/illegal-op-wrong-exception", what=what, exc=repr(e)[:120])
                 return
@@ -429,7 +441,7 @@ def run_plan(plan: dict) -> RunResult:
                 return self._obj_hook("handle_object_killed", obj)
 
             def handle_lludp_message(self, session, region, message):
-                tag = tag_of_message(message)
+                tag = tag_or_current(message)
                 st = beh.get(tag)
                 if st is None:
                     return None
@@ -463,7 +475,7 @@ def run_plan(plan: dict) -> RunResult:
                     try:
                         circuit.drop_message(message)
                         rec.add(kind="drop", tag=tag, by=f"addon{self.idx}", ok=True)
-                    except RuntimeError:
+                    except Exception:
                         rec.add(kind="drop", tag=tag, by=f"addon{self.idx}", ok=False)
                         raise
                     return True if b == "drop" else None
@@ -472,7 +484,7 @@ def run_plan(plan: dict) -> RunResult:
                         circuit.send(message)
                         rec.add(kind="send_orig", tag=tag, by=f"addon{self.idx}", ok=True)
                         res.probe("send_orig_by_addon")
-                    except RuntimeError:
+                    except Exception:
                         rec.add(kind="send_orig", tag=tag, by=f"addon{self.idx}", ok=False)
                         raise
                     return True if b == "send_orig_truthy" else None
@@ -520,9 +532,9 @@ def run_plan(plan: dict) -> RunResult:
             paused = False
 
             def log_lludp_message(self, session, region, message):
-                rec.logger_calls.append({"tag": tag_of_message(message), "synthetic": bool(message.synthetic),
+                rec.logger_calls.append({"tag": tag_or_current(message), "synthetic": bool(message.synthetic),
                                          "name": message.name, "t": loop.time()})
-                rec.add(kind="logged", tag=tag_of_message(message), synthetic=bool(message.synthetic))
+                rec.add(kind="logged", tag=tag_or_current(message), synthetic=bool(message.synthetic))
 
             def log_http_response(self, flow):
                 pass
@@ -531,6 +543,14 @@ def run_plan(plan: dict) -> RunResult:
                 pass
 
         cur_tag = [None]
+
+        def tag_or_current(message):
+            """The tag as the hooks can read it; for a datagram damaged in flight (body unreadable) the harness tells
+            them which one it is."""
+            t_ = tag_of_message(message)
+            if t_ is None and not message.synthetic and cur_tag[0] in beh and beh[cur_tag[0]].get("damaged"):
+                return cur_tag[0]
+            return t_
         addons = [ScriptedAddon(i) for i in range(cfg["n_addons"])]
         addon_paths, mtime_of = [], None
         if cfg.get("file_addon"):
@@ -772,6 +792,9 @@ def run_plan(plan: dict) -> RunResult:
             flags = (L.RELIABLE if st.get("reliable") else 0) | (L.ZEROCODED if st.get("zerocoded") else 0)
             pid = ep.alloc_pid(flow)
             dg = L.build_datagram(flags, pid, 0, body)
+            if st.get("damaged") and st["kind"] == "obj" and not st.get("zerocoded"):
+                dg = dg[:-st["damaged"]]
+                res.fault("datagram_damaged_in_flight")
             sent_pid[tag] = pid
             from hsim.core.net import Fate
             if st["dir"] == "out":
@@ -1009,6 +1032,9 @@ def run_plan(plan: dict) -> RunResult:
             st = beh.get(tag)
             if st is None:
                 return
+            if st.get("damaged") and st["kind"] == "obj" and not st.get("zerocoded") and not cfg.get("deferred", True):
+                # with eager parsing a datagram whose body cannot be decoded is discarded before anybody sees it
+                return
             if any(sb.get("gone") for sb in subs):
                 res.probe("message_after_subscriber_gone")
             n_add = cfg["n_addons"]
@@ -1067,8 +1093,12 @@ def run_plan(plan: dict) -> RunResult:
             if got_seq != want_seq:
                 return violate("C07/isolation/hook-sequence", tag=tag, want=want_seq, got=got_seq,
                                escaped=repr(a.escaped)[:120] if a.escaped else None)
+            damaged = bool(st.get("damaged")) and st["kind"] == "obj" and not st.get("zerocoded")
+            if damaged:
+                res.probe("hooks_on_a_message_nobody_can_read")
             # ---- every permanent subscriber is notified exactly once, whatever the ones before it did --------
-            if not swallowed:
+            # (subscribers of the harness recognise their messages by reading them: a damaged one is not judged here)
+            if not swallowed and not damaged:
                 for level, kinds in (("session", cfg.get("plain_subs", [])), ("region", cfg.get("plain_subs_region", []))):
                     calls = [e["idx"] for e in entries if e["kind"] == "plain_sub" and e.get("level", "session") == level]
                     # a subscriber whose predicate failed is not itself notified; everybody else is
@@ -1077,7 +1107,7 @@ def run_plan(plan: dict) -> RunResult:
                     if calls != want_calls:
                         return violate("C07/isolation/subscriber-skipped", tag=tag, level=level, called=calls,
                                        want=want_calls, subs=kinds)
-            if st["kind"] == "obj" and exp.direction == "in":
+            if st["kind"] == "obj" and exp.direction == "in" and not damaged:
                 check_object_hooks(exp, entries, st, [obj_local(tag, i) for i in range(st["nobj"])],
                                    "handle_object_updated", swallowed)
                 if stopped:
